@@ -14,7 +14,7 @@ import os, sys, itertools
 import vcommon
 from vcommon import VERIF
 
-PROPS = ["Bee2V/C08/Props.lean", "Bee2V/C08/Props2.lean", "Bee2V/C08/Props3.lean", "Bee2V/C08/Props4.lean", "Bee2V/C08/Props5.lean", "Bee2V/C08/Props6.lean"]
+PROPS = ["Bee2V/C08/Props.lean", "Bee2V/C08/Props2.lean", "Bee2V/C08/Props3.lean", "Bee2V/C08/Props4.lean", "Bee2V/C08/Props5.lean", "Bee2V/C08/Props6.lean", "Bee2V/C08/Props7.lean"]
 PROPS = [p for p in PROPS if os.path.exists(os.path.join(vcommon.LEAN, p))]
 MODS = [p[:-5].replace("/", ".") for p in PROPS]
 SIZE_MAX = 2 ** 64 - 1
